@@ -11,8 +11,10 @@ small integers of an opening proof (`ShapeVec`):
   `InitialReducedOpeningHeightMismatch`, `SiblingValuesLengthMismatch`,
   `UnconsumedReducedOpenings`);
 * `CircuitShapeOk`: `verify_circuit` + `verify_fri_circuit` build a circuit and the proof can be
-  fed to it (verifier.rs:1408-1518, the `zip_eq` checks of `open_input`, "first reduced opening
-  must be at max height", and the sibling inputs allocated from `log_arity`).
+  fed to it (`log_max_height` against the bit width and the two-adicity in `verify_circuit`; the
+  shape validation at the head of `verify_fri_circuit` incl. the checked sibling-coefficient count;
+  the `zip_eq` checks of `open_input`; "first reduced opening must be at max height"). A proof
+  without fold phase is *not* excluded (repo fix 0e5036a).
 
 The driver prints both on every case; `bin/checks_c07.py` checks them against the verdicts of the
 real code. The theorem relating them is `P3R.C07.fri_shape_iff`.
@@ -78,12 +80,16 @@ def NativeShapeOk (sv : ShapeVec) : Prop :=
   (∀ q ∈ sv.queries, SibsOk q) ∧
   (∀ h ∈ sv.heights, h = sv.logMax ∨ h ∈ sv.foldedHeights)
 
+/-- Changes that followed repairs in /repo: `1 ≤ la` (f783d84, C07-F3c); `logMax ≤ twoAdicity`
+(c030fca, F9i: `verify_circuit` used to compare with the bit width only); the former conjunct
+`numBetas ≠ 0` ("FRI must have at least one fold phase") is gone (0e5036a, C07-F4); the sibling
+count in `SibsOk` is an explicit checked comparison in `verify_fri_circuit` (fc0321f, F9d). -/
 def CircuitShapeOk (sv : ShapeVec) : Prop :=
-  sv.logMax ≤ 31 ∧
+  sv.logMax ≤ 31 ∧ sv.logMax ≤ sv.twoAdicity ∧
   sv.numBetas = sv.numCommits ∧ sv.numBetas = sv.numPow ∧
   sv.firstArities.length = sv.numBetas ∧
   (∀ la ∈ sv.firstArities, 1 ≤ la) ∧
-  sv.queries ≠ [] ∧ sv.numBetas ≠ 0 ∧
+  sv.queries ≠ [] ∧
   (∀ q ∈ sv.queries, q.arities.length = sv.numBetas ∧ q.arities = sv.firstArities ∧ SibsOk q) ∧
   sv.finalLen = 2 ^ sv.p.logFinalPolyLen ∧
   OpenedOk sv ∧
